@@ -5,6 +5,7 @@ import (
 	"go/ast"
 	"go/token"
 	"go/types"
+	"os"
 	"sort"
 	"strings"
 
@@ -66,8 +67,9 @@ type Exec struct {
 	// is itself the forall (positive position), where proving it for an arbitrary constant
 	// is the same as proving the quantified formula.
 	skolemNext *skolem
-	noFork   bool
-	pathMode bool // `split returns`: joins are not merged (bounded), see execNode
+	noFork     bool
+	nextPC     int
+	pathMode   bool // `split returns`: joins are not merged (bounded), see execNode
 	// nonNil holds the terms `(not (= p nil))` of pointers assumed non-nil on entry
 	nonNil map[string]bool
 }
@@ -185,6 +187,7 @@ type node struct {
 	// condition of the If that ends the block
 	facts  map[string]bool
 	branch string
+	pc     int // path context (0 = the initial one)
 }
 
 // factsAlong returns the facts that hold after leaving `from` along successor succIdx.
@@ -218,7 +221,7 @@ func (n *node) fork() *node {
 		p = n.primary
 	}
 	c := &node{key: n.key, blk: n.blk, ctx: n.ctx, in: n.in, reach: n.reach, env: make(map[ssa.Value]Val, len(n.env)+8), heap: n.heap,
-		cutHdr: nil, epochs: n.epochs, memo: map[ssa.Value]*Val{}, primary: p, facts: n.facts}
+		cutHdr: nil, epochs: n.epochs, memo: map[ssa.Value]*Val{}, primary: p, facts: n.facts, pc: n.pc}
 	for k, v := range n.env {
 		c.env[k] = v
 	}
@@ -262,6 +265,7 @@ type retInfo struct {
 	val   Val
 	heap  *Heap
 	facts map[string]bool
+	pos   token.Pos
 }
 
 func (f *frame) analyseLoops() {
@@ -611,25 +615,65 @@ func (f *frame) execNode(n *node, entry *node, entryReach string, entryHeap *Hea
 			}
 			return
 		}
-		// path-sensitive mode (`split returns`): a join is not merged; the block is executed
-		// once per incoming edge, on a variant of the node, while the number of variants of
-		// the frame stays under a cap (beyond it joins are merged as usual - both are sound)
-		if x.pathMode && !f.spec && !x.inSpec() && len(live) > 1 && n.cutHdr == nil && f.nVariants+len(live)-1 <= 600 {
-			f.nVariants += len(live) - 1
-			for _, e := range live[1:] {
-				c := &node{key: n.key, blk: n.blk, ctx: n.ctx, in: []inEdge{e}, reach: e.cond, env: map[ssa.Value]Val{}, heap: e.from.heap.clone(),
-					memo: map[ssa.Value]*Val{}, primary: n, facts: f.factsAlong(e.from, e.succIdx)}
-				for _, ep := range e.from.epochs {
-					if ep.loopBody()[n.blk] {
-						c.epochs = append(c.epochs, ep)
-					}
+		// Path contexts: a multi-return inlined call forks the execution into one path
+		// context per return (see inline). A join merges only edges of the same context; the
+		// block is executed once per context, on a variant of the node. Plain diamonds in the
+		// function's own code stay within one context and are merged as usual.
+		if !f.spec && !x.inSpec() && len(live) > 1 && n.cutHdr == nil && os.Getenv("IONVC_NOJOINSPLIT") == "" {
+			groups := map[int][]int{}
+			var order []int
+			for i, e := range live {
+				if _, ok := groups[e.from.pc]; !ok {
+					order = append(order, e.from.pc)
 				}
-				n.clones = append(n.clones, c)
-				extra = append(extra, c)
+				groups[e.from.pc] = append(groups[e.from.pc], i)
 			}
-			live = live[:1]
-			conds, hs = conds[:1], hs[:1]
-			n.in = live
+			if len(order) > 1 && f.nVariants+len(order)-1 <= 6000 {
+				f.nVariants += len(order) - 1
+				for _, pc := range order[1:] {
+					var es []inEdge
+					var cs []string
+					var hh []*Heap
+					for _, i := range groups[pc] {
+						es = append(es, live[i])
+						cs = append(cs, conds[i])
+						hh = append(hh, hs[i])
+					}
+					c := &node{key: n.key, blk: n.blk, ctx: n.ctx, in: es, env: map[ssa.Value]Val{}, memo: map[ssa.Value]*Val{}, primary: n, pc: pc}
+					c.reach = g.Fresh(SortBool, or(cs...))
+					c.heap = x.mergeHeaps(cs, hh)
+					c.facts = f.factsAlong(es[0].from, es[0].succIdx)
+					for _, e := range es[1:] {
+						c.facts = intersectFacts(c.facts, f.factsAlong(e.from, e.succIdx))
+					}
+					seenEp := map[*epoch]bool{}
+					for _, e := range es {
+						for _, ep := range e.from.epochs {
+							if !seenEp[ep] && ep.loopBody()[n.blk] {
+								seenEp[ep] = true
+								c.epochs = append(c.epochs, ep)
+							}
+						}
+					}
+					n.clones = append(n.clones, c)
+					extra = append(extra, c)
+				}
+				var l0 []inEdge
+				var c0 []string
+				var h0 []*Heap
+				for _, i := range groups[order[0]] {
+					l0 = append(l0, live[i])
+					c0 = append(c0, conds[i])
+					h0 = append(h0, hs[i])
+				}
+				live, conds, hs = l0, c0, h0
+				n.in = live
+				n.pc = order[0]
+			} else if len(order) == 1 {
+				n.pc = order[0]
+			}
+		} else if len(live) == 1 {
+			n.pc = live[0].from.pc
 		}
 		n.reach = g.Fresh(SortBool, or(conds...))
 		heap = x.mergeHeaps(conds, hs)
@@ -850,4 +894,37 @@ func (f *frame) execTolerant(n *node, ins ssa.Instruction) (cont bool) {
 		}
 	}()
 	return f.execInstr(n, ins)
+}
+
+// smallDiamond reports whether the join block b closes a plain if-then or if-then-else
+// over straight-line code without calls: such joins are merged (one if-then-else term per
+// assigned variable) even in path-sensitive mode, where splitting them would double the
+// number of paths for no gain.
+func smallDiamond(b *ssa.BasicBlock, live []inEdge) bool {
+	idom := b.Idom()
+	if idom == nil {
+		return false
+	}
+	for _, e := range live {
+		fb := e.from.blk
+		if fb == idom {
+			if e.from.primary != nil || len(e.from.clones) > 0 {
+				return false
+			}
+			continue
+		}
+		if len(fb.Preds) != 1 || fb.Preds[0] != idom || len(fb.Instrs) > 8 {
+			return false
+		}
+		if e.from.primary != nil || len(e.from.clones) > 0 {
+			return false
+		}
+		for _, ins := range fb.Instrs {
+			switch ins.(type) {
+			case *ssa.Call, *ssa.Store, *ssa.MapUpdate, *ssa.Panic:
+				return false
+			}
+		}
+	}
+	return true
 }
